@@ -34,6 +34,8 @@ from fim.slivers.delegations import Delegations, Delegation, DelegationType, Del
 from fim.user.topology import ExperimentTopology
 
 LEVEL = 'other'
+import os as _os
+THOROUGH = _os.environ.get('VERIF_TIER_ACTIVE') == 'thorough'
 TG = 'fim.graph.abc_property_graph:ABCPropertyGraph.'
 KINDS = {
     'node': (NodeSliver, APG.node_sliver_to_graph_properties_dict, APG.node_sliver_from_graph_properties_dict, NodeType),
@@ -155,7 +157,7 @@ def make_flat(kind):
                          TG + 'set_base_sliver_properties_from_graph_properties_dict')
         props_ = settable
         props = ('C02',)
-        bounded = 'a named sliver with one further settable property set at a time; management_ip, maintenance_info and delegations not covered'
+        bounded = 'a named sliver with one further settable property set at a time (every PAIR of properties in the thorough tier); management_ip, maintenance_info and delegations not covered'
         summaries = SET_NAME
         max_paths = 20000
         cost = 20
@@ -165,13 +167,20 @@ def make_flat(kind):
             f = F(cls)
             # every sliver the library builds is named (from_dict passes the stored Name to set_name)
             f['resource_name'] = 'sliver1'
-            attr = {'name': 'resource_name', 'type': 'resource_type', 'model': 'resource_model'}.get(p, p)
-            f[attr] = value_for(g, cls, p, tenum)
-            if p == 'image_ref':
-                # stored as "<ref>,<type>": the type is a format token (no comma); the reference is any string
-                f['image_type'] = g.str('v_image_type')
-                g.assume(z3.Not(z3.Contains(f['image_type'].t, z3.StringVal(','))))
-            return [PObj(cls, f), p], {}
+            chosen = [p]
+            if THOROUGH:
+                # thorough tier: every PAIR of settable properties
+                q = g.pick([x for x in self.props_ if x > p] or [p], 'second property that is set')
+                if q != p:
+                    chosen.append(q)
+            for x in chosen:
+                attr = {'name': 'resource_name', 'type': 'resource_type', 'model': 'resource_model'}.get(x, x)
+                f[attr] = value_for(g, cls, x, tenum)
+                if x == 'image_ref':
+                    # stored as "<ref>,<type>": the type is a format token (no comma); the reference is any string
+                    f['image_type'] = g.str('v_image_type')
+                    g.assume(z3.Not(z3.Contains(f['image_type'].t, z3.StringVal(','))))
+            return [PObj(cls, f), tuple(chosen) if len(chosen) > 1 else p], {}
 
         def body(self, h, sl, p):
             d = h.call(to_d, sl)
@@ -201,12 +210,18 @@ def make_flat(kind):
             sl, p = pre.args
             d, back = post.result
             written = set(keys(d)) - {'StitchNode'}
-            if p != 'name':
+            ps = p if isinstance(p, tuple) else (p,)
+            if 'name' not in ps:
                 written = written - {'Name'}
-            if p == 'stitch_node':
-                return written == set()
-            want = APG.SLIVER_PROPERTY_TO_GRAPH.get(p)
-            return want is not None and written == {want}
+            want = set()
+            for x in ps:
+                if x == 'stitch_node':
+                    continue
+                w = APG.SLIVER_PROPERTY_TO_GRAPH.get(x)
+                if w is None:
+                    return False
+                want.add(w)
+            return written == want
 
         ensures = {'flat.round_trip_every_property': lambda pre, post: Flat._rt(pre, post),
                    'table.key_written_is_the_tabled_key': lambda pre, post: Flat._table(pre, post)}
@@ -446,16 +461,24 @@ class DeepJsonRoundTrip(Contract):
         vals = {k: g.str(f'details_{k}') for k in ('node', 'comp', 'csvc', 'cif', 'sub', 'nsvc', 'nif')}
         vals['core'] = g.int('core', lo=0)
         vals['model'] = g.str('model')
+        vals['again'] = g.str('details_again')
         return [shape, vals], {}
 
     def body(self, h, shape, vals):
         n = build_deep(h, shape, vals)
         js = h.call(JSONSliver.sliver_to_json, n)
         back = h.call(JSONSliver.node_sliver_from_json, js)
-        return (n, back)
+        # a sliver of the same name and id but with other content, converted later in the same process
+        vals2 = dict(vals)
+        vals2['node'] = vals['again']
+        n2 = build_deep(h, shape, vals2)
+        js2 = h.call(JSONSliver.sliver_to_json, n2)
+        back2 = h.call(JSONSliver.node_sliver_from_json, js2)
+        return (n, back, fld(back2, 'details'))
 
     ensures = {
         'deep.same_structure_and_values': lambda pre, post: returned(post) and tree_same(post.result[0], post.result[1]),
+        'deep.second_conversion_reflects_the_edit': lambda pre, post: returned(post) and same(post.result[2], pre.args[1]['again']),
     }
 
 
